@@ -397,7 +397,11 @@ func genC13(t *rapid.T) C13Case {
 	c.UsedDst = c.Mode == "network" && rapid.Bool().Draw(t, "used_dst")
 	c.EditAfterSave = c.Mode == "save" && rapid.Bool().Draw(t, "edit_after_save")
 	for s := 0; s < c.Secs; s++ {
-		c.Pools = append(c.Pools, genPool(t, "blocks"))
+		pool := genPool(t, "blocks")
+		if rapid.IntRange(0, 9).Draw(t, "airsonly") == 4 {
+			pool = append([]int{}, airIDs...) // a section of air variants only: block count 0, yet not "all air"
+		}
+		c.Pools = append(c.Pools, pool)
 		c.Light = append(c.Light, [2]int{rapid.IntRange(0, 3).Draw(t, "sky"), rapid.IntRange(0, 3).Draw(t, "blocklight")})
 	}
 	nops := rapid.IntRange(0, pbt.Pick(40, 120)).Draw(t, "nops")
@@ -432,7 +436,7 @@ func genC13(t *rapid.T) C13Case {
 		}
 		c.BEs = append(c.BEs, be)
 	}
-	c.Status = rapid.SampledFrom([]string{"empty", "full", "features", "minecraft:full", ""}).Draw(t, "status")
+	c.Status = rapid.SampledFrom([]string{"empty", "full", "features", "minecraft:full", "", "minecraft:empty", "minecraft:", "mod:full", "minecraft:minecraft:full", "FULL"}).Draw(t, "status")
 	return c
 }
 
